@@ -129,6 +129,8 @@ def main(tier):
     jobs = [(job_structure, c) for c in cfgs] + [(job_scaling, c) for c in cfgs[:3]]
     # the structure above is that of a call on a fresh object; that a later call computes the same (also where FFTW's c2r plan uses its input as scratch space, N = 24, and for an impedance table ending below the top frequency) is the history obligation
     jobs += [(c18.job_history, (4, 24, 0, (0,), 2, 400)), (c18.job_history, (4, 24, 5, (1, 0), 1, 0))]
+    import c17 as _c17
+    jobs += [(_c17.job_padded_lengths, (4, 4, True)), (_c17.job_padded_lengths, (4, 3, False))]      # what main hands the field: bucket numbers from the filling pattern, spacing and padded length (set-up slice of main)
     chk.bounds = {'configurations (n, N, spacing, bucket numbers)': cfgs, 'symbolic': 'every profile value of every bunch, every complex impedance sample (all N), machine parameters in the scaling obligation'}
     chk.assumptions = ['fftwf_execute = FFTW\'s documented r2c/c2r transforms, represented as uninterpreted functions of the whole input buffer (the specification uses the same functions: the obligation is on which cells feed them, which samples multiply which bins, what is read back and the scale)',
                        'linearity in the profiles and the shift property are properties of the DFT itself and follow from this structure; FFTW\'s numerical accuracy is outside the claim',
